@@ -1104,6 +1104,23 @@ fn probes(ctx: &mut Ctx, s: &Session, l1: &[Mv]) {
         st.bump("probe.sixty-plus-moves");
     }
     st.max("max.legal-moves", l1.len() as u64);
+    // how many entries the move list needs for this position: one per (source, promotion
+    // piece) group, plus one more for a pawn that can also capture en passant
+    let mut groups: Vec<(u8, u8)> = l1.iter().map(|m| (m.from, m.promo)).collect();
+    groups.sort();
+    groups.dedup();
+    let mut entries = groups.len() as u64;
+    for &(from, _) in &groups {
+        let has_ep = l1.iter().any(|&m| m.from == from && s.model.is_ep_capture(m));
+        let has_other = l1.iter().any(|&m| m.from == from && !s.model.is_ep_capture(m));
+        if has_ep && has_other {
+            entries += 1;
+        }
+    }
+    st.max("max.move-list-entries-needed", entries);
+    if entries >= 30 {
+        st.bump("probe.thirty-or-more-move-list-entries");
+    }
 }
 
 // ---------------------------------------------------------------- main loop
